@@ -329,6 +329,10 @@ def gen_cases(rng: random.Random, tier: str):
         for k in range(total + 1):
             for end in ("fin", "rst"):
                 yield mk_case(fs, [call(None, sync=True)] * 5, end, cut=k, tag="cut-every-offset-" + end)
+                # the same loss seen by a POLLING reader (finite and zero timeouts): it must be reported all the same
+                if (a, b) == pairs[0] or k % 7 == 3:
+                    yield mk_case(fs, [call(0.02, sync=True)] * 6, end, cut=k, tag="cut-polled-" + end)
+                    yield mk_case(fs, [call(0, sync=True)] * 6, end, cut=k, tag="cut-polled0-" + end)
     # (d) payload / header delivered in two TCP segments with a pause in between (MSG_WAITALL matters)
     for kind in ("good", "unknown", "size", "version", "unsub"):
         for where in ("payload", "header"):
